@@ -15,6 +15,7 @@ RULE = (
     "circuit and gate mode; exported unitaries compared with an own state-vector simulation with qubit i = qubit i (QASM: parsed gate sequence, formal "
     "parameters and invocation operands); non-trivial = >=1 non-barrier gate and >=2 qubits; distinct by gate list"
 )
+PREIMPORT = ["qiskit", "qiskit.quantum_info", "cirq", "sympy.physics.quantum.qapply", "sympy.physics.quantum.represent", "sympy.physics.quantum.gate"]
 DECIDING = ["qiskit_compared", "cirq_compared", "sympy_compared", "qasm_parsed"]
 ASSUMPTIONS = ["qiskit Operator / cirq.unitary / sympy represent are trusted as simulators of the exported objects", "QASM angles are printed with two decimals by design: parameters are compared within 0.005",
                "an explicit 'Gate not handled' exception marks a gate outside that exporter's exportable set (counted, not a violation) except for barriers, which are no-ops",
